@@ -31,6 +31,11 @@ impl Parser for Go {
 
             actual.start += terminator;
 
+            // Nothing is left after the directive.
+            if actual.start > actual.end {
+                return Vec::new();
+            }
+
             let Some(new_source) = actual.try_get_content(actual_source) else {
                 return Vec::new();
             };
